@@ -1,16 +1,16 @@
 #!/usr/bin/env python3
-"""Round 2: confirm sub-agent mutations from /tmp/seed-out2/<pid>/ on a fresh clone of /repo, store as seeded/<pid>-3, -4 (-5 bonus)."""
+"""Round 2: confirm sub-agent mutations from /tmp/seed-out3/<pid>/ on a fresh clone of /repo, store as seeded/<pid>-3, -4 (-5 bonus)."""
 import json, os, re, shutil, subprocess, sys, tempfile
 PY = '/venv/bin/python'
 def sh(cmd, cwd, timeout=900):
     p = subprocess.run(cmd, cwd=cwd, shell=True, capture_output=True, text=True, timeout=timeout)
     return p.returncode, (p.stdout + p.stderr)
 for pid in sys.argv[1:]:
-    out = f'/tmp/seed-out2/{pid}'
+    out = f'/tmp/seed-out3/{pid}'
     cands = [(f'{out}/patch1.diff', f'{out}/demo1.py'), (f'{out}/patch2.diff', f'{out}/demo2.py')]
     for a, b in (('patch3_bonus.diff', 'demo3_bonus.py'), ('extra_patch3.diff', 'extra_demo3.py')):
         if os.path.exists(f'{out}/{a}'): cands.append((f'{out}/{a}', f'{out}/{b}'))
-    n = 2
+    n = 5
     for patch, demo in cands:
         n += 1
         if not (os.path.exists(patch) and os.path.exists(demo)):
@@ -34,7 +34,7 @@ for pid in sys.argv[1:]:
             os.makedirs(d, exist_ok=True)
             shutil.copy(patch, f'{d}/patch.diff'); shutil.copy(demo, f'{d}/demo.py')
             notes = open(f'{out}/notes.md').read() if os.path.exists(f'{out}/notes.md') else ''
-            json.dump({'property': pid, 'round': 2, 'origin': 'independent sub-agent given only the property text and a scratch worktree of the (repaired) tree',
+            json.dump({'property': pid, 'round': 3, 'origin': 'independent sub-agent given only the property text and a scratch worktree of the (repaired) tree',
                        'notes_from_author': notes,
                        'confirmed_by': 'tools/confirm_seeds2.py: demo exits 0 on the clean tree, patch applies, the existing test suite passes with the patch (only the baseline-failing test_pyright fails), demo exits non-zero with the patch',
                        'demo_output_with_patch': o1[-800:], 'tests_tail': ot[-300:]}, open(f'{d}/meta.json', 'w'), indent=1)
